@@ -382,7 +382,9 @@ class OP4:
         nlines = (L - 1) // perline + 1
         blocklist = [ln[:linelen] for ln in it.islice(fh, nlines)]
         s = "".join(blocklist)
-        if self._dformat:
+        # (`_dformat` is decided from the first matrix only; a later
+        # matrix can still use the other exponent letter)
+        if self._dformat or "D" in s:
             s = s.replace("D", "E")
         return s
 
